@@ -30,7 +30,8 @@ PLAN = {
     "C13": [("prod", 60000, 1500000, []), ("san", 600, 8000, []), ("ndebug", 6000, 100000, [])],
     "C15": [("prod", 80000, 4000000, []), ("san", 4000, 80000, []), ("ndebug", 6000, 100000, ["--no-baseline"])],
     "C16": [("prod", 100000, 5000000, []), ("san", 3000, 60000, ["--no-baseline"]), ("ndebug", 6000, 100000, ["--no-baseline"])],
-    "C17": [("prod", 26000, 2000000, []), ("san", 2500, 50000, []), ("ndebug", 4000, 60000, [])],
+    "C17": [("prod", 26000, 2000000, []), ("san", 2500, 50000, []), ("ndebug", 4000, 60000, []),
+            ("trng-getentropy", 3000, 60000, []), ("trng-devurandom", 3000, 60000, [])],   # the system source of the NULL callback in its other build flavours
     "C18": [("trng-getrandom", 40000, 1000000, []), ("trng-getentropy", 40000, 1000000, []), ("trng-syscall", 40000, 1000000, []),
             ("trng-devurandom", 40000, 1000000, []), ("prod", 15000, 300000, []), ("san", 2500, 50000, []), ("ndebug", 6000, 100000, [])],
     "C19": [("prod", 100000, 2500000, []), ("hook", 30000, 700000, []), ("san", 4000, 60000, []), ("ndebug", 8000, 100000, []), ("trng-devurandom", 8000, 100000, []), ("hookvol", 6000, 100000, [])],
